@@ -16,6 +16,7 @@ CONSTANTS
   CraftToks = {}
   MaxPresent = 2
   Calls = {"client", "time", "deliver"}
+  PumpPay = FALSE
   HealRounds = 12
   HealDt = 250
   Bound = 12
